@@ -56,6 +56,8 @@ class Ctx:
         self.axiom_log = set()     # names of library axioms instantiated
         self.current = None        # name of harness for messages
         self.dim_consts = set()
+        self.foralls = []
+        self.hints = []
 
     def begin_path(self, decisions):
         self.solver.reset()
@@ -64,6 +66,19 @@ class Ctx:
         self.decisions = list(decisions)
         self.trail = []
         self._uf_seen = set()
+        self.foralls = []
+        self.hints = []
+
+    # ground instantiation of universally quantified library facts (never hand z3 a quantifier)
+    def add_forall(self, f):
+        self.foralls.append(f)
+        for h in self.hints:
+            self.add(f(h))
+
+    def add_hint(self, term):
+        self.hints.append(term)
+        for f in self.foralls:
+            self.add(f(term))
 
     # path condition ---------------------------------------------------------
     def add(self, z):
